@@ -49,7 +49,7 @@ func VerifC32BytesAddSub() {
 	vr.Reach("done")
 }
 
-//verif:harness prop=C32 reach=done unwind=40 budget=250
+//verif:harness prop=C32 reach=done unwind=40 budget=250 thorough.budget=1800
 func VerifC32BytesMulDiv() {
 	n := vr.Param(1, 2)
 	a, b := vr.Bytes("a", n), vr.Bytes("b", n)
